@@ -90,6 +90,77 @@ def overlapping_runs(ctx):
             shutil.rmtree(base, ignore_errors=True)
 
 
+def links_and_second_pass(ctx):
+    """(1) the testcase named on the command line is a symbolic link to the file the program under test reads by its real
+    name; (2) a second pass with a NEW Lithium object into the SAME --tempdir: in both, `<tempdir>/i-<tag>` holds what
+    test i saw, and test i was handed the prefix `<tempdir>/i`"""
+    import contextlib
+    import io
+    import os
+    import shutil
+    import sys
+    from lithium.reducer import Lithium
+    from .. import loaders
+
+    d = loaders.scratch() / "c12-links"
+    if d.exists():
+        shutil.rmtree(d)
+    d.mkdir()
+    (d / "c12_seen.py").write_text(
+        "import os\nSEEN = []\ndef interesting(args, prefix):\n    data = open(os.environ['C12_READS'], 'rb').read()\n"
+        "    v = b'keep' in data and len(SEEN) % 3 != 2\n    SEEN.append((prefix, data, v))\n    return v\n")
+    cwd = os.getcwd()
+    os.chdir(d)
+    try:
+        for scenario in ("symlink", "second-pass"):
+            for flag in ("--lines", "--char"):
+                real = d / "real.txt"
+                real.write_bytes(b"a\nkeep\nb\nc\nd\n")
+                link = d / "link.txt"
+                if link.is_symlink() or link.exists():
+                    link.unlink()
+                os.symlink("real.txt", link)
+                td = d / f"td-{scenario}-{flag.strip('-')}"
+                os.environ["C12_READS"] = str(real)
+                passes = []
+                try:
+                    for nth in range(2 if scenario == "second-pass" else 1):
+                        sys.modules.pop("c12_seen", None)
+                        td.mkdir(exist_ok=True)
+                        name = "link.txt" if scenario == "symlink" else "real.txt"
+                        argv = [flag, "--tempdir=" + str(td), "--testcase=" + name, "c12_seen.py", "unused-arg"]
+                        with contextlib.redirect_stdout(io.StringIO()), contextlib.redirect_stderr(io.StringIO()):
+                            Lithium().main(argv)
+                        passes.append(list(sys.modules["c12_seen"].SEEN))
+                        if nth == 0 and scenario == "second-pass":
+                            real.write_bytes(b"x\nkeep\ny\nz\n")
+                except (Exception, SystemExit) as exc:  # pylint: disable=broad-except
+                    ctx.fail("internal-error", f"{scenario} {flag}: {type(exc).__name__}: {exc}", dict(scenario=scenario, flag=flag))
+                    continue
+                finally:
+                    os.environ.pop("C12_READS", None)
+                ctx.evaluations += 1
+                ctx.bump("links-and-second-pass")
+                case = dict(scenario=scenario, flag=flag, via="Lithium.main")
+                seen = passes[-1]
+                for i, (prefix, data, v) in enumerate(seen, 1):
+                    if os.path.normpath(prefix) != str(td / str(i)):
+                        ctx.fail("prefix", f"{scenario} {flag}: test {i} was handed the prefix {prefix}, expected {td / str(i)}", case)
+                        break
+                    logged = td / f"{i}-{'interesting' if v else 'boring'}.txt"
+                    if not logged.is_file() or logged.read_bytes() != data:
+                        ctx.fail("tagged-copy", f"{scenario} {flag}: test {i} saw {data!r}; {logged.name} holds "
+                                 f"{logged.read_bytes() if logged.is_file() else None!r}", case)
+                        break
+                if len({x[1] for x in seen[1:]}) != len(seen[1:]):
+                    ctx.fail("duplicate-test", f"{scenario} {flag}: two tests saw identical bytes: {[x[1] for x in seen]}", case)
+                if len(seen) >= 4:
+                    ctx.nontriv("links", scenario, flag)
+    finally:
+        os.chdir(cwd)
+        sys.modules.pop("c12_seen", None)
+
+
 def search(ctx):
     overlapping_runs(ctx)
     drv.d1(ctx, WHICH, 6000, NT, do_model=False)
@@ -105,6 +176,7 @@ def run(ctx) -> int:
         ctx.exhaustive.append("every verdict sequence of the removal strategies on the SMALL inputs")
     drv.d2_random(ctx, WHICH, NT, 3000 if ctx.thorough else 900)
     drv.d2_content_oracles(ctx, WHICH, NT)
+    links_and_second_pass(ctx)
     drv.d2_touching_test(ctx, WHICH, 600 if ctx.thorough else 150)
     return common.decide(ctx, proof, RULE, search=search, assumptions=["SHA-512 is modelled as the identity (collision freedom)"])
 
